@@ -23,7 +23,7 @@ def per_trait(items, traits):
         if "compile_error" in items[i] and items[i].startswith(": : core : : compile_error"):
             out.append([items[i]]); i += 1
             continue
-        n = ENTRY_ITEMS.get(t, 1)
+        n = ENTRY_ITEMS.get(t, 2 if t.endswith("Assign") else 4 if t in ("Add", "Sub", "Mul", "Div", "Rem", "BitAnd", "BitOr", "BitXor", "Shl", "Shr") else 1)
         out.append(items[i:i + n]); i += n
     return out if i == len(items) else None
 
@@ -104,6 +104,33 @@ def run(ctx):
             samples.append(rep)
         if len(ctx.violations) > 30:
             break
+    # relation (c), dedicated: helper attributes of ONE trait on the fields must not leak into the impls of the traits listed after (or before) it:
+    # the impl of T inside the list == the impl of T alone on the item without the other traits' helper attributes
+    LEAK = [("struct X { a: u8, #[debug(ignore)] b: u8, c: u8 }", "struct X { a: u8, b: u8, c: u8 }", "Debug", ["SubAssign", "Clone", "PartialEq", "Neg", "Default", "Add", "Hash"]),
+            ("struct X(#[debug(transparent)] u8, u8);", "struct X(u8, u8);", "Debug", ["ShlAssign", "Clone", "Not", "PartialOrd", "Default"]),
+            ("enum X { A { #[debug(ignore)] a: u8, b: u8 }, #[default] B(#[debug(ignore)] u8) }", "enum X { A { a: u8, b: u8 }, #[default] B(u8) }", "Debug", ["Clone", "PartialEq", "Hash", "Default"]),
+            ("struct X { #[default(7)] a: u8, b: u8 }", "struct X { a: u8, b: u8 }", "Default", ["AddAssign", "Clone", "Debug", "PartialEq", "Neg"]),
+            ("struct X { #[eq(ignore)] a: u8, #[ord(key = $.abs())] b: i8 }", "struct X { a: u8, b: i8 }", "PartialEq", ["SubAssign", "Clone", "Debug", "Neg", "Default"])]
+    for with_attr, plain, owner, others in LEAK:
+        for order in ("first", "last", "middle"):
+            for k in range(2 if ctx.quick else 6):
+                sel = rng.sample(others, min(len(others), 3))
+                lst = {"first": [owner] + sel, "last": sel + [owner], "middle": sel[:1] + [owner] + sel[1:]}[order]
+                tog = impls_of(ex.attr(", ".join(lst), with_attr), True)
+                ptt = per_trait(tog, lst) if tog is not None else None
+                evals += 1
+                nontriv += 1
+                if ptt is None:
+                    ctx.violation("B:C15:leak:%s:%s" % (", ".join(lst), with_attr), "expansion failed or impls do not appear entry by entry", {"layer": "B", "item": with_attr, "args": ", ".join(lst), "together": tog})
+                    continue
+                for idx, t in enumerate(lst):
+                    if t == owner:
+                        continue
+                    alone = impls_of(ex.attr(t, plain), True)
+                    evals += 1
+                    if alone != ptt[idx]:
+                        ctx.violation("B:C15:leak:%s:%s:%s" % (", ".join(lst), t, with_attr), "impl of %s changes when %s (whose helper attributes the fields carry) is listed %s in the same request" % (t, owner, order),
+                                      {"layer": "B", "item": with_attr, "args": ", ".join(lst), "trait": t, "together": ptt[idx], "alone_on_plain_item": alone})
     # relation (a) on the bound(...) family of C04: type-, variant- and field-level #[derive_ex(Trait(bound(..)), bound(..))] and helper bounds
     import boundfam as BF
     for is_enum in (False, True):
